@@ -193,12 +193,14 @@ AcObsOK(o) ==
             r[3] = SubSeq(order, PosOf(order, r[1]), PosOf(order, r[2]))
 
 (* save / restore: the harness keeps a clone and later continues from it (Clone is part of the API) *)
-TrSave == /\ IsEv("save") /\ ~acyc /\ saved' = <<nd, ed, dir, stamp, kind>> /\ ret' = E.ret
+TrSave == /\ IsEv("save") /\ saved' = <<nd, ed, dir, stamp, kind, acyc>> /\ ret' = E.ret
           /\ E.nc = NodeCount /\ E.ec = EdgeCount
           /\ UNCHANGED <<nd, ed, dir, maxix, stamp, pending, kind, acyc, order>>
-TrRestore == /\ IsEv("restore") /\ ~acyc /\ saved # <<>>
-             /\ nd' = saved[1] /\ ed' = saved[2] /\ dir' = saved[3] /\ stamp' = saved[4] /\ kind' = saved[5]
-             /\ ret' = E.ret /\ pending' = {} /\ UNCHANGED <<maxix, acyc, order, saved>>
+\* a restored clone of an Acyclic wrapper must again present a valid order (its own: logged and checked)
+TrRestore == /\ IsEv("restore") /\ saved # <<>>
+             /\ nd' = saved[1] /\ ed' = saved[2] /\ dir' = saved[3] /\ stamp' = saved[4] /\ kind' = saved[5] /\ acyc' = saved[6]
+             /\ ret' = E.ret /\ pending' = {} /\ UNCHANGED <<maxix, saved>>
+             /\ (IF saved[6] THEN order' = E.order /\ OrderOKN(E.order) /\ E.pos_inc /\ E.atpos_ok ELSE order' = order)
              /\ NodeCount' = E.nc /\ EdgeCount' = E.ec /\ StMatchesN(E.st)
 
 \* the IF makes TLC evaluate ObsOK as a state predicate (otherwise its inner disjunctions are expanded
